@@ -76,6 +76,11 @@ def check(ctx):
         "the wrappers WithoutShrink / WithoutDealloc are not entries of the calculus: a wrapper around a (re)borrow of a handle is typed as that "
         "(re)borrow (their forwarding `BumpAllocatorCoreScope<'a>` impls are checked at table level by sigOK.implAdequate: the header must say "
         "`B: BumpAllocatorCoreScope<'a>`) and the derived corpus uses them as receivers of the scope-trait methods and of a generic helper",
+        "Send/Sync of the types that are not objects of the calculus (collections over an owned Bump / a &mut Bump, mut_bump_vec::IntoIter, the boxes, "
+        "owned_slice / owned_str iterators): every hand-written `unsafe impl Send/Sync` of the crate is extracted (Gen/Sigs.lean `handImpls`) and must bound "
+        "every type parameter the struct stores outside PhantomData (C04.hand_impls_ok, table level only; parameters bounded by BumpAllocatorSettings are "
+        "exempt), and a fixed family of `move X to another thread` programs with a non-Send base allocator is compiled (expectation by construction, "
+        "Global twins as controls); whether the bounds are SUFFICIENT beyond that rule (e.g. raw pointers into shared chunks) is not examined",
         "claim(&self) is typed as an exclusive borrow of its receiver (stricter than the real signature); the shared form is sound only because a "
         "claimed allocator is inert at run time (property C14), which the calculus does not model",
         "BumpPool::get always hands out a fresh arena in the calculus (reuse of returned arenas is not modelled)",
